@@ -240,6 +240,11 @@ class Interp:
 
     def check_mutable(self, obj):
         if self.frozen_owner is not None and getattr(obj, "owner", None) != self.frozen_owner:
+            if getattr(self, "loop_effects", None) is not None:
+                # tolerated only on a path that ends in `break` (it is re-executed in the enclosing context);
+                # the mutation itself is NOT performed on the shared object
+                self.loop_effects.append(obj)
+                raise LoopEffect()
             raise Unsupported("mutation of loop-external state inside an abstracted loop body")
         if self.mutations is not None:
             self.mutations.append(obj)
@@ -1149,6 +1154,10 @@ class Interp:
     # super(Class, self)
     def make_super(self, cls, obj):
         return SuperProxy(cls, obj)
+
+
+class LoopEffect(Exception):
+    """an abstracted loop body tried to mutate state that lives outside the loop"""
 
 
 class PDict(dict):
